@@ -85,22 +85,50 @@ func (tr *fnTrans) calleeMods(cc *ssa.CallCommon) ([]string, bool) {
 	if sp.ModAll {
 		return nil, true
 	}
+	return tr.specMods(sp), false
+}
+
+// specMods lists the components a contract allows its function to modify: the modifies clause
+// (rec_<name> stands for every call-record ghost of <name>) plus the function's own call record.
+func (tr *fnTrans) specMods(sp *FuncSpec) []string {
 	var out []string
+	seen := map[string]bool{}
+	add := func(cn string) {
+		if !seen[cn] {
+			seen[cn] = true
+			out = append(out, cn)
+		}
+	}
+	addRec := func(name string) {
+		pre := "G:rec_" + name + "_"
+		for cn := range tr.known {
+			if strings.HasPrefix(cn, pre) {
+				tr.regComp(cn, tr.known[cn])
+				add(cn)
+			}
+		}
+		for cn := range tr.compSort {
+			if strings.HasPrefix(cn, pre) {
+				add(cn)
+			}
+		}
+	}
 	for _, m := range sp.Modifies {
+		if strings.HasPrefix(m, "rec_") {
+			addRec(m[4:])
+			continue
+		}
 		cn, err := tr.compForModifies(m)
 		if err != nil {
 			panic(evalErr{fmt.Sprintf("%s: %v", sp.Where, err)})
 		}
-		out = append(out, cn)
+		add(cn)
 	}
 	if name := sp.Flags["record"]; name != "" {
-		for cn := range tr.known {
-			if strings.HasPrefix(cn, "G:rec_"+name+"_") {
-				out = append(out, cn)
-			}
-		}
+		addRec(name)
 	}
-	return out, false
+	sort.Strings(out)
+	return out
 }
 
 // doCall translates a call; res is the list of result terms.
@@ -156,6 +184,7 @@ func (tr *fnTrans) doCall(ins ssa.Instruction, cc *ssa.CallCommon, asVal ssa.Val
 func (tr *fnTrans) callText(pos token.Pos) string {
 	if tr.callTexts == nil {
 		tr.callTexts = map[token.Pos]string{}
+		tr.callFull = map[token.Pos]string{}
 		fn := tr.fn
 		var node ast.Node = fn.Syntax()
 		if node == nil && fn.Origin() != nil {
@@ -168,6 +197,7 @@ func (tr *fnTrans) callText(pos token.Pos) string {
 			ast.Inspect(node, func(n ast.Node) bool {
 				if ce, ok := n.(*ast.CallExpr); ok {
 					tr.callTexts[ce.Lparen] = types.ExprString(ce.Fun)
+					tr.callFull[ce.Lparen] = types.ExprString(ce)
 				}
 				return true
 			})
@@ -181,11 +211,7 @@ func (tr *fnTrans) atCall(ins ssa.Instruction, args []Term) {
 	if len(tr.spec.Ats) == 0 {
 		return
 	}
-	text := tr.callText(ins.Pos())
-	for _, at := range tr.spec.Ats {
-		if at.Kind != "call" || at.Expr != text {
-			continue
-		}
+	for _, at := range tr.matchAts(ins.Pos()) {
 		at.Used = true
 		env := map[string]Term{}
 		for k, v := range tr.params {
@@ -198,10 +224,11 @@ func (tr *fnTrans) atCall(ins ssa.Instruction, args []Term) {
 		}
 		blk, pidx := tr.curBlock, tr.curIdx
 		ev := &evalCtx{tr: tr, env: env, cur: tr.cur, old: tr.entry}
-		ev.names = func(name string) (Term, bool) {
-			return tr.resolveVarAt(name, blk, pidx, ev.cur, nil)
+		ev.names = func(cx *evalCtx, name string) (Term, bool) {
+			return tr.resolveVarAt(name, blk, pidx, cx.cur, nil)
 		}
-		n := tr.ord("at." + text)
+		n := tr.ord("at." + at.Expr)
+		text := at.Expr
 		for i, a := range at.Asserts {
 			s, err := ev.EvalBool(a.E)
 			if err != nil {
@@ -226,6 +253,27 @@ func (tr *fnTrans) atCall(ins ssa.Instruction, args []Term) {
 			tr.applyGhost(g, ev)
 		}
 	}
+}
+
+// matchAts lists the at-blocks anchored at the call at pos.
+func (tr *fnTrans) matchAts(pos token.Pos) []*AtSpec {
+	text := tr.callText(pos)
+	full := tr.callFull[pos]
+	var out []*AtSpec
+	for _, at := range tr.spec.Ats {
+		if at.Kind != "call" {
+			continue
+		}
+		if strings.Contains(at.Expr, "(") {
+			if !strings.HasPrefix(full, at.Expr) {
+				continue
+			}
+		} else if at.Expr != text {
+			continue
+		}
+		out = append(out, at)
+	}
+	return out
 }
 
 // applyGhost performs a ghost assignment in the current state.
@@ -270,6 +318,9 @@ func (tr *fnTrans) bumpClock() {
 func (tr *fnTrans) applySpec(sp *FuncSpec, name string, args []Term, sig *types.Signature, p token.Pos) []Term {
 	short := shortCallee(name)
 	n := tr.ord("call." + short)
+	if sp.Flags["unproved"] != "" {
+		tr.c.trusted["unproved-callee:"+sp.Key] = true
+	}
 	if sp.Kind != "func" {
 		tr.c.trusted["assumed-contract:"+sp.Kind+":"+sp.Key] = true
 	} else if tr.eng.LookupFunc(sp.Key) == nil {
@@ -291,6 +342,12 @@ func (tr *fnTrans) applySpec(sp *FuncSpec, name string, args []Term, sig *types.
 		label := r.Label
 		if label == "" {
 			label = fmt.Sprint(i)
+		}
+		if strings.HasPrefix(label, "wf_") {
+			// facts true in every Go execution (e.g. stored references are allocated): assumed, not checked
+			tr.c.trusted["go-heap-wellformedness:"+short+"."+label] = true
+			tr.assume(s)
+			continue
 		}
 		tr.oblige("pre", fmt.Sprintf("call.%s.pre.%s#%d", short, label, n), s, p, tr.propsOfLabel(r.Label), r.Src)
 	}
@@ -320,10 +377,13 @@ func (tr *fnTrans) applySpec(sp *FuncSpec, name string, args []Term, sig *types.
 	if sp.ModAll {
 		tr.havocAll(tr.cur)
 	} else {
-		for _, m := range sp.Modifies {
-			cn, err := tr.compForModifies(m)
-			if err != nil {
-				panic(evalErr{fmt.Sprintf("%s: %v", sp.Where, err)})
+		own := ""
+		if name := sp.Flags["record"]; name != "" {
+			own = "G:rec_" + name + "_"
+		}
+		for _, cn := range tr.specMods(sp) {
+			if own != "" && strings.HasPrefix(cn, own) {
+				continue // maintained exactly by recordCall below
 			}
 			tr.havoc(tr.cur, cn)
 		}
@@ -435,6 +495,10 @@ func (tr *fnTrans) goStmt(x *ssa.Go) {
 		}
 		if strings.HasPrefix(label, "rely_") {
 			tr.c.trusted["thread-role:"+short+"."+label] = true
+			continue
+		}
+		if strings.HasPrefix(label, "wf_") {
+			tr.c.trusted["go-heap-wellformedness:"+short+"."+label] = true
 			continue
 		}
 		tr.oblige("pre", fmt.Sprintf("go.%s.pre.%s#%d", short, label, n), s, x.Pos(), tr.propsOfLabel(r.Label), r.Src)
@@ -612,15 +676,11 @@ func (tr *fnTrans) doReturn(x *ssa.Return) {
 	// frame: components not listed in modifies are unchanged on previously allocated objects
 	if !tr.spec.ModAll && tr.spec.Flags["noframe"] == "" {
 		allowed := map[string]bool{"$clock": true}
-		for _, m := range tr.spec.Modifies {
-			cn, err := tr.compForModifies(m)
-			if err != nil {
-				panic(evalErr{fmt.Sprintf("%s: %v", tr.spec.Where, err)})
-			}
+		for _, cn := range tr.specMods(tr.spec) {
 			allowed[cn] = true
 		}
 		for _, comp := range tr.allComps() {
-			if allowed[comp] || strings.HasPrefix(comp, "L:") || strings.HasPrefix(comp, "G:rec_") {
+			if allowed[comp] || strings.HasPrefix(comp, "L:") {
 				continue
 			}
 			cur := tr.get(tr.cur, comp, tr.compSort[comp])
